@@ -77,6 +77,9 @@ func runC11(c *Ctx) {
 	c11R4(c, extract)
 	c.Use(p)
 	parseFENResetRule(c, p, "C11.R5")
+	c11R6(c, p)
+	// a rejected FEN must leave the engine's position untouched — also when a move list follows it
+	c.As("C02.R8", "C11.R7.rejected-fen", func() { c02R8(c, p) })
 }
 
 // ---------------------------------------------------------------- model of the parser
